@@ -1,7 +1,12 @@
 """C05 - native npy cache: exact, transparent, crash-safe (DESIGN.md section 4, C05).
 
-Tie T+D: (a) the ordered file effects of a real `save` (unlink / np.savez / touch, traced by wrapping the
-library calls, per object and save_mesh_only, over a directory in which every cache file already exists) must be a
+Tie T+D: (a) the ordered file effects of a real `save` ON THE CACHE DIRECTORY (every file-system mutation below it is an
+event = an interruption point, however it is performed: wrapped library calls numpy.savez / save, Path.touch / unlink /
+rename / replace / write_*, os.replace / rename / remove / link / mkdir / rmdir, shutil.move / copy*, plus a sys.addaudithook
+hook for open(..., 'w') / os.open and every other audited primitive; an event that writes / removes one of the seven cache
+files IN the directory - a rename into the directory is a write of its target - is a model effect, everything else, e.g.
+a staging sub-directory, is an interruption point only; traced
+per object and save_mesh_only, over a directory in which every cache file already exists) must be a
 plan accepted by the model's executable test `Femio.C05.GoodMid` - the hypothesis of the `*_plan` theorems, which hold
 for EVERY order of the effects between the removal and the re-creation of the sentinel; whether the traced order also
 equals `saveSteps Cfg.fixed` is recorded, not required; (a') the same save is left by an exception at EVERY effect
@@ -13,15 +18,19 @@ while the stack unwinds (finally / except / __exit__) must be accepted by `GoodU
 directory machine.  An interruption is either a PROCESS DEATH (nothing after effect k reaches the disk) or an
 EXCEPTION that unwinds the Python stack (KeyboardInterrupt, SystemExit, OSError(ENOSPC), MemoryError raised once from
 inside the wrapped call of effect k - before it, after half-writing its file, or right after it; later effects are
-performed and traced).  Injected without touching /repo: the harness wraps numpy.savez, Path.touch and Path.unlink.
+performed and traced).  Injected without touching /repo (wrappers + audit hook, see `effects`).  Stream `sweep`: EVERY event
+of one save (second save over a complete cache, automatic save of a first read, mesh-only second save) is the point of a
+process death in turn, on objects whose every cache file is observable (all groups non-empty, HEAT settings).
 Oracle: a read returns the parse of the source or exactly one completely saved object; save -> load
 reproduces every group exactly (digests over float.hex / ints / strings by id)."""
 import collections
 import contextlib
 import errno
 import io
+import os
 import pathlib
 import shutil
+import sys
 
 import numpy as np
 
@@ -33,6 +42,7 @@ LEAN_MODULES = ['Femio.Props.C05', 'Femio.Props.C05K']
 THEOREMS = ['C05_full_save_plan', 'C05_crash_inv_plan', 'C05_history_inv_plan', 'C05_crash_safe_plan', 'mid_good',
             'C05_crash_inv_unwind', 'C05_read_interrupt_inv', 'C05_history_inv_unwind', 'C05_crash_safe_unwind',
             'C05_unwind_extends_plan', 'C05_interrupted_read_transparent', 'C05_unwind_counterexample_marker_in_finally',
+            'C05_staged_sorted_counterexample', 'C05_staged_marker_last_good',
             'C05_full_save', 'C05_crash_inv', 'C05_save_inv', 'C05_read_inv', 'C05_history_inv', 'C05_crash_safe',
             'C05_cache_transparent', 'C05_load_complete_save', 'C05_crash_counterexample_upstream',
             'C05_stale_counterexample_upstream', 'split_join', 'C05_keys_attr_roundtrip', 'C05_keys_roundtrip',
@@ -43,15 +53,28 @@ PARTIAL = ['key scheme theorems (C05_keys_*) treat array payloads as opaque tags
            'torn writes inside one np.savez are modelled as "file present but unreadable" (a crash point), not byte-level',
            'read options other than the defaults (read_mesh_only, differing time_series) across one history are not modelled',
            'clean-up effects performed while an exception unwinds the stack are a traced parameter of the *_unwind theorems '
-           '(hypothesis GoodUnwind, evaluated on every interrupted run), not derived from the source of save()']
+           '(hypothesis GoodUnwind, evaluated on every interrupted run), not derived from the source of save()',
+           'files other than the seven cache files of the directory (a staging sub-directory, temporary names) are not part of the '
+           'directory machine: events on them are interruption points only (a read looks at femio_*.np* of the directory itself); '
+           'an event seen by the audit hook only (open(..., "w"), os.open) is interrupted before it (torn: file left truncated); '
+           '"right after it" is raised at the next event']
 RULE = ('seeded histories (quick <= 6 ops, thorough <= 10) over read | save X [mesh-only] | crash X@k [torn] (process death) | '
         'interrupt X@k by KeyboardInterrupt / SystemExit / OSError(ENOSPC) / MemoryError raised once from inside the wrapped '
         'effect k [before it | after half-writing its file | right after it] (later effects - finally / except / __exit__ - run and '
         'are traced) | the same two kinds inside the automatic save of read_directory | a save that raises by itself (settings key '
         'colliding with numpy.savez(file=), unpicklable settings value), with distinct objects (source parse from a UCD / FrontISTR '
-        'msh+cnt / OBJ directory, A, B, poisoned N) whose optional groups (nodal, elemental, constraints) are independently empty or '
-        'not, on a real temp directory; interruption points k uniform over 0..11 with the first effect (old cache still valid) and '
-        'the last one over-weighted; 15 fixed histories (each kind of interruption of a second save over a complete cache of another '
+        'msh+cnt [60 % HEAT analyses: solution type and time-step table differ from the defaults a cache without settings file yields] '
+        '/ OBJ directory, A, B, poisoned N; A / B always carry string / number / bool settings, half a solution_type) whose optional '
+        'groups (nodal, elemental, constraints) are independently empty or '
+        'not, on a real temp directory; an interruption point is an EVENT = any file-system mutation below the cache directory '
+        '(wrapped numpy / pathlib / os / shutil calls + sys.addaudithook for open-for-writing, os.rename, os.remove, os.link, '
+        'os.symlink, os.mkdir, os.rmdir, os.truncate outside wrapped calls), whether or not it touches a cache file of the '
+        'directory (staging sub-directory, temporary names, clean-up); points k uniform over 0..11 (over all events when a save has '
+        'more than 12) with the first event (old cache still valid) and '
+        'the last one over-weighted; stream sweep: a process death before EVERY event k = 0, 1, 2, ... (W events alternately torn) of '
+        'a second save over a complete cache / of the automatic save of a first read / of a mesh-only second save, then two reads, on '
+        'objects with every optional group non-empty and a FrontISTR HEAT source; a read may return the parse of the source or an '
+        'object a (mesh-only) save of which was at least started in this history, group by group, settings included; 15 fixed histories (each kind of interruption of a second save over a complete cache of another '
         'object, of the first read, before the first / after the last effect); thorough additionally enumerates ALL interruption '
         'points x {death, death torn, exception before / torn / after} x mesh-only of a second save and of a first read; a case = one '
         'operation; non-trivial = the operation changed the directory or was a read served from the cache; the unwind tie leaves the '
@@ -64,8 +87,11 @@ RULE = ('seeded histories (quick <= 6 ops, thorough <= 10) over read | save X [m
         '(FEMAttribute.update / FEMAttributes.update_data with allow_overwrite=True, a write through a .loc / .iloc slice, the '
         'data_frame setter); ids, data SHAPES and values (bit patterns) of what the object reports before save() are compared '
         'with what is loaded')
-ASSUMPTIONS = ['an interruption is modelled at the granularity of file effects: a process death by a BaseException raised instead of '
-               '(or, torn, in the middle of) the k-th file effect and of every later one; an interruption that unwinds the stack by '
+ASSUMPTIONS = ['an interruption is modelled at the granularity of file-system events below the cache directory (each traced mutation, '
+               'whatever call performs it; only those on the seven cache files of the directory are effects of the model, the others '
+               'are interruption points at which the model state does not change; a rename is atomic: never torn): a process death by '
+               'a BaseException raised instead of '
+               '(or, torn, in the middle of) the k-th event and of every later one; an interruption that unwinds the stack by '
                'one exception raised from inside the wrapped call of the k-th effect (before / torn / after), later effects performed '
                'and traced; effects already performed are durable, in order (no reordering by the OS); an asynchronous exception '
                'between two effects is represented by the one raised at the next effect (same set of performed effects, same '
@@ -164,114 +190,271 @@ EXCS = {'KeyboardInterrupt': lambda: KeyboardInterrupt(),                       
         'MemoryError': lambda: MemoryError()}
 
 
+# Every file-system MUTATION below the cache directory is an EVENT (an interruption point): whatever way the code under
+# test performs it.  Two mechanisms, so that neither a new spelling nor a new call site escapes:
+# * wrappers around the library calls a save is usually written with (numpy.savez / savez_compressed / save, Path.touch /
+#   unlink / rename / replace / write_bytes / write_text, os.replace / rename / remove / unlink / link / symlink / mkdir /
+#   rmdir, shutil.move / copy / copy2 / copyfile): one event per outermost call, interruption before / in the middle of
+#   (torn, where the call is not atomic) / right after it;
+# * a sys.addaudithook hook (events open-for-writing, os.rename, os.remove, os.link, os.symlink, os.mkdir, os.rmdir,
+#   os.truncate) for everything that is not inside a wrapped call (open(..., 'w'), os.open, a C extension ...): one event
+#   per audited primitive, interruption before it (torn for an open: the file is left created / truncated); "right after it"
+#   becomes "before the next event".
+# An event that removes / (re)writes one of the seven cache files IN the cache directory (a rename INTO the directory is a
+# write of its target, a rename out of it a removal) is a MODEL EFFECT ('R' | 'W', file); every other event (a staging
+# sub-directory, temporary names, their clean-up) is only an interruption point: no read looks at those files.
+
+_AUDIT = {'installed': False, 'handler': None}
+_AUDITED = frozenset(['open', 'os.rename', 'os.remove', 'os.link', 'os.symlink', 'os.mkdir', 'os.rmdir', 'os.truncate'])
+_WRITE_FLAGS = os.O_WRONLY | os.O_RDWR | os.O_CREAT | os.O_TRUNC | os.O_APPEND
+
+
+def _audit_hook(event, args):
+    h = _AUDIT['handler']
+    if h is not None and event in _AUDITED:
+        h(event, args)
+
+
+def _with_suffix(file, suffix):
+    """the path numpy.savez / numpy.save really writes (None: a file object)"""
+    if not isinstance(file, (str, bytes, os.PathLike)):
+        return None
+    f = os.fsdecode(file)
+    return f if f.endswith(suffix) else f + suffix
+
+
+def _into(src, dst):
+    """the path shutil.move / copy / copy2 really write: inside dst when dst is a directory"""
+    try:
+        if os.path.isdir(dst):
+            return os.path.join(os.fsdecode(dst), os.path.basename(os.fsdecode(src).rstrip(os.sep)))
+    except (TypeError, ValueError):
+        pass
+    return dst
+
+
 @contextlib.contextmanager
-def effects(directory, crash_at=None, torn=False, trace=None, exc=None, after=False, unwind=None):
-    """wrap numpy.savez, Path.touch, Path.unlink; count effects on femio_* files inside `directory`.
+def effects(directory, crash_at=None, torn=False, trace=None, exc=None, after=False, unwind=None, events=None):
+    """trace (and interrupt) every file-system mutation below `directory` (see the comment above).
 
-    Two kinds of interruption at effect number `crash_at`:
-    * exc=None, a PROCESS DEATH: `Crash` is raised instead of effect k and instead of every later effect (whatever a
+    Two kinds of interruption at EVENT number `crash_at`:
+    * exc=None, a PROCESS DEATH: `Crash` is raised instead of event k and instead of every later event (whatever a
       `finally` / `except` / `__exit__` of the code under test tries afterwards never reaches the disk);
-    * exc=<name in EXCS>, an EXCEPTION that unwinds the Python stack: raised ONCE from inside the wrapped call of effect k
-      (before performing it; with `torn` after half-writing its file; with `after` right after performing it).  Every
-      later effect is performed normally and recorded in `unwind`.
-    `trace`: the effects performed before the interruption.  The yielded state holds 'fired' (number of effects performed
-    before the interruption, None = never interrupted), 'injected' (the exception instance raised here) and 'errors'
-    (index in `trace`, exception, kind, file) for exceptions raised by a real effect itself (an unserialisable value,
-    ...): whether one of those is an interruption is decided by the caller (did it leave save()?)."""
+    * exc=<name in EXCS>, an EXCEPTION that unwinds the Python stack: raised ONCE from inside event k (before performing
+      it; with `torn` after half-writing its file; with `after` right after performing it).  Every later event is performed
+      normally; its model effects are recorded in `unwind`.
+    `trace`: the model effects ('R' | 'W', file) performed before the interruption; `events`: per event performed before the
+    interruption the list of its model effects ([] for an event that touches no cache file).  The yielded state holds
+    'fired' (number of EVENTS performed before the interruption, None = never interrupted), 'fired_effects' (number of
+    model effects performed before it), 'torn_done' (a cache file was really left half-written), 'injected' (the exception
+    instance raised here) and 'errors' (number of model effects performed before, exception, model effects of the event)
+    for exceptions raised by a real event itself (an unserialisable value, ...): whether one of those is an interruption is
+    decided by the caller (did it leave save()?)."""
     import numpy
-    directory = pathlib.Path(directory).resolve()
-    state = {'n': 0, 'fired': None, 'injected': None, 'errors': []}
-    real_savez, real_touch, real_unlink = numpy.savez, pathlib.Path.touch, pathlib.Path.unlink
+    directory = os.path.realpath(str(directory))
+    trace = [] if trace is None else trace
+    events = [] if events is None else events
+    state = {'n': 0, 'fired': None, 'fired_effects': None, 'torn_done': False, 'injected': None, 'errors': [], 'depth': 0,
+             'after_pending': False, 'foreign': [], 'hook_only': 0}
 
-    def relevant(p):
+    def locate(p, dir_fd=None):
+        """None (not below the cache directory) | ('effect', cache file) | ('other', path relative to the directory)"""
+        if p is None or isinstance(p, int):
+            return None
         try:
-            p = pathlib.Path(p)
-        except TypeError:
-            return False
-        return p.name.startswith('femio_') and p.resolve().parent == directory
+            p = os.fsdecode(p)
+            if dir_fd is not None and not os.path.isabs(p):
+                p = os.path.join(os.readlink(f'/proc/self/fd/{dir_fd}'), p)
+            p = os.path.abspath(p)
+            parent, name = os.path.realpath(os.path.dirname(p)), os.path.basename(p)
+        except (TypeError, ValueError, OSError):
+            return None
+        if parent == directory:
+            if name.startswith('femio_') and name.endswith(('.npz', '.npy')):
+                return ('effect', RNAME.get(name, name))
+            return ('other', name)
+        if parent.startswith(directory + os.sep):
+            return ('other', os.path.relpath(os.path.join(parent, name), directory))
+        return None
 
     def inject():
         e = Crash() if exc is None else EXCS[exc]()
         state['injected'] = e
         return e
 
-    def perform(kind, p, real, tear=None):
-        if not relevant(p):
-            return real()
-        name = pathlib.Path(p).name
-        if kind == 'W' and not name.endswith('.npz') and not name.endswith('.npy'):
-            name += '.npz'
-        name = RNAME.get(name, name)
+    def perform(touched, real, tear=None):
+        """one event; touched = [(kind, path, dir_fd)]; real=None: called from the audit hook (the caller performs it)"""
+        locs = [(kind, locate(p, fd)) for kind, p, fd in touched]
+        locs = [(kind, l) for kind, l in locs if l is not None]
+        if not locs:
+            return real() if real is not None else None
+        effs = [(kind, l[1]) for kind, l in locs if l[0] == 'effect']
         if state['fired'] is not None:            # after the interruption
             if exc is None:
                 raise Crash()                     # the process is dead
             if unwind is not None:
-                unwind.append((kind, name))       # performed while the exception unwinds the stack
-            return real()
+                unwind.extend(effs)               # performed while the exception unwinds the stack
+            return real() if real is not None else None
         idx = state['n']
-        if crash_at is not None and idx == crash_at and not (after and exc is not None):
-            state['fired'] = idx
-            if torn and tear is not None:
-                tear()
+        if state['after_pending'] or (crash_at is not None and idx == crash_at and not (after and exc is not None)):
+            state['fired'], state['fired_effects'] = idx, len(trace)
+            if torn and tear is not None and not state['after_pending'] and ('W', 'sentinel') not in effs:
+                state['depth'] += 1
+                try:
+                    tear()
+                finally:
+                    state['depth'] -= 1
+                state['torn_done'] = any(k == 'W' for k, _f in effs)
             raise inject()
         state['n'] += 1
-        if trace is not None:
-            trace.append((kind, name))
+        before = len(trace)
+        trace.extend(effs)
+        events.append(effs)
+        if not effs:
+            state['foreign'].append([f'{kind} {l[1]}' for kind, l in locs])
+        if real is None:                          # audit hook: the primitive is performed by our caller
+            state['hook_only'] += 1
+            if crash_at is not None and idx == crash_at:
+                state['after_pending'] = True     # "right after it" = before the next event
+            return None
+        state['depth'] += 1
         try:
             out = real()
         except BaseException as e:
-            state['errors'].append((idx, e, kind, name))
+            state['errors'].append((before, e, effs))
             raise
+        finally:
+            state['depth'] -= 1
         if crash_at is not None and idx == crash_at:
-            state['fired'] = idx + 1
+            state['fired'], state['fired_effects'] = idx + 1, len(trace)
             raise inject()
         return out
 
-    def savez(*a, **k):
-        file = a[0] if a else k.get('file')
+    saved = []
 
-        def tear():
+    def wrap(owner, attr, touched_of, tear_of=None):
+        real = getattr(owner, attr, None)
+        if real is None:
+            return
+
+        def wrapper(*a, **k):
+            if state['depth']:                    # inside an outer wrapped call: part of that event
+                return real(*a, **k)
+            try:
+                touched = [t for t in touched_of(*a, **k) if t[1] is not None]
+            except Exception:
+                touched = []
+            if not touched:
+                return real(*a, **k)
+            return perform(touched, lambda: real(*a, **k), (lambda: tear_of(*a, **k)) if tear_of else None)
+        saved.append((owner, attr, real))
+        setattr(owner, attr, wrapper)
+
+    def half(path, data):
+        with open(path, 'wb') as f:
+            f.write(data[: max(1, len(data) // 2)])
+
+    def tear_np(real, suffix):
+        def tear(*a, **k):
+            file = a[0] if a else k.pop('file')
             buf = io.BytesIO()
-            real_savez(buf, *a[1:], **k)
-            b = buf.getvalue()
-            target = pathlib.Path(str(file) + ('' if str(file).endswith('.npz') else '.npz'))
-            target.write_bytes(b[: max(1, len(b) // 2)])
-        return perform('W', file, lambda: real_savez(*a, **k), tear)
+            real(buf, *a[1:], **k)
+            half(_with_suffix(file, suffix), buf.getvalue())
+        return tear
 
-    def touch(self, *a, **k):
-        return perform('W', self, lambda: real_touch(self, *a, **k))
+    def tear_copy(src, dst, *a, **k):
+        with open(src, 'rb') as f:
+            half(_into(src, dst), f.read())
 
-    def unlink(self, *a, **k):
-        return perform('R', self, lambda: real_unlink(self, *a, **k))
+    for fn, suffix in (('savez', '.npz'), ('savez_compressed', '.npz'), ('save', '.npy')):
+        wrap(numpy, fn, lambda *a, _s=suffix, **k: [('W', _with_suffix(a[0] if a else k.get('file'), _s), None)],
+             tear_np(getattr(numpy, fn), suffix))
+    P = pathlib.Path
+    wrap(P, 'touch', lambda self, *a, **k: [('W', self, None)])
+    wrap(P, 'unlink', lambda self, *a, **k: [('R', self, None)])
+    wrap(P, 'rename', lambda self, target, *a, **k: [('R', self, None), ('W', target, None)])
+    wrap(P, 'replace', lambda self, target, *a, **k: [('R', self, None), ('W', target, None)])
+    wrap(P, 'write_bytes', lambda self, data, *a, **k: [('W', self, None)], lambda self, data, *a, **k: half(self, bytes(data)))
+    wrap(P, 'write_text', lambda self, data, *a, **k: [('W', self, None)],
+         lambda self, data, *a, **k: half(self, str(data).encode()))
+    wrap(P, 'mkdir', lambda self, *a, **k: [('W', self, None)])
+    wrap(P, 'rmdir', lambda self, *a, **k: [('R', self, None)])
+    for fn in ('replace', 'rename'):
+        wrap(os, fn, lambda src, dst, *a, src_dir_fd=None, dst_dir_fd=None, **k: [('R', src, src_dir_fd), ('W', dst, dst_dir_fd)])
+    for fn in ('remove', 'unlink', 'rmdir'):
+        wrap(os, fn, lambda path, *a, dir_fd=None, **k: [('R', path, dir_fd)])
+    wrap(os, 'mkdir', lambda path, *a, dir_fd=None, **k: [('W', path, dir_fd)])
+    wrap(os, 'link', lambda src, dst, *a, src_dir_fd=None, dst_dir_fd=None, **k: [('W', dst, dst_dir_fd)])
+    wrap(os, 'symlink', lambda src, dst, *a, dir_fd=None, **k: [('W', dst, dir_fd)])
+    wrap(shutil, 'move', lambda src, dst, *a, **k: [('R', src, None), ('W', _into(src, dst), None)])
+    wrap(shutil, 'copyfile', lambda src, dst, *a, **k: [('W', dst, None)], tear_copy)
+    wrap(shutil, 'copy', lambda src, dst, *a, **k: [('W', _into(src, dst), None)], tear_copy)
+    wrap(shutil, 'copy2', lambda src, dst, *a, **k: [('W', _into(src, dst), None)], tear_copy)
 
-    numpy.savez, pathlib.Path.touch, pathlib.Path.unlink = savez, touch, unlink
+    def audited(event, args):
+        """a mutation that is not part of a wrapped call"""
+        if state['depth']:
+            return
+        if event == 'open':
+            path, mode, flags = (tuple(args) + (None, None, None))[:3]
+            writing = (isinstance(flags, int) and flags & _WRITE_FLAGS) or (isinstance(mode, str) and set(mode) & set('wax+'))
+            if not writing:
+                return
+            touched, tear = [('W', path, None)], (lambda: os.close(os.open(path, os.O_WRONLY | os.O_CREAT | os.O_TRUNC, 0o666)))
+        elif event in ('os.rename', 'os.link'):
+            src, dst, sfd, dfd = (tuple(args) + (None,) * 4)[:4]
+            sfd, dfd = (None if sfd in (None, -1) else sfd), (None if dfd in (None, -1) else dfd)
+            touched, tear = ([('R', src, sfd)] if event == 'os.rename' else []) + [('W', dst, dfd)], None
+        elif event == 'os.symlink':
+            src, dst, dfd = (tuple(args) + (None,) * 3)[:3]
+            touched, tear = [('W', dst, None if dfd in (None, -1) else dfd)], None
+        elif event in ('os.remove', 'os.rmdir'):
+            path, dfd = (tuple(args) + (None,) * 2)[:2]
+            touched, tear = [('R', path, None if dfd in (None, -1) else dfd)], None
+        elif event == 'os.mkdir':
+            path, _mode, dfd = (tuple(args) + (None,) * 3)[:3]
+            touched, tear = [('W', path, None if dfd in (None, -1) else dfd)], None
+        else:                                     # os.truncate
+            touched, tear = [('W', args[0], None)], None
+        perform(touched, None, tear)
+
+    if not _AUDIT['installed']:
+        sys.addaudithook(_audit_hook)
+        _AUDIT['installed'] = True
+    outer = _AUDIT['handler']
+    _AUDIT['handler'] = audited
     try:
         yield state
     finally:
-        numpy.savez, pathlib.Path.touch, pathlib.Path.unlink = real_savez, real_touch, real_unlink
+        _AUDIT['handler'] = outer
+        for owner, attr, real in reversed(saved):
+            setattr(owner, attr, real)
 
 
 def run_interruptible(fn, directory, inj=None):
-    """run fn() with the file effects traced and, with inj = {'k', 'torn', 'exc', 'after'}, interrupted.
+    """run fn() with the file-system events below `directory` traced and, with inj = {'k', 'torn', 'exc', 'after'},
+    interrupted at event k.
     -> (returned, error, interruption, trace): `interruption` = None (fn ran to its end and nothing was injected) or
-    {'p': number of effects performed before it, 'torn': the file of effect p was left half-written, 'unwind': effects
-    performed afterwards, 'by': 'kill' | name of the injected exception | 'femio:<exception raised by femio itself>',
-    'swallowed': the injected exception did not leave fn}; `error` = text of an exception that left fn and is neither
-    the injected one nor raised by an effect of the save (None otherwise)"""
+    {'p': number of MODEL EFFECTS performed before it, 'event': number of events performed before it, 'torn': the cache file
+    of the interrupted effect was left half-written, 'unwind': model effects performed afterwards, 'by': 'kill' | name of the
+    injected exception | 'femio:<exception raised by femio itself>', 'swallowed': the injected exception did not leave fn};
+    `error` = text of an exception that left fn and is neither the injected one nor raised by an effect of the save (None
+    otherwise); `trace` = the model effects performed before the interruption"""
     inj = inj or {}
-    tr, unw = [], []
+    tr, unw, evs = [], [], []
     returned, escaped = None, None
     with effects(directory, crash_at=inj.get('k'), torn=bool(inj.get('torn')), trace=tr, exc=inj.get('exc'),
-                 after=bool(inj.get('after')), unwind=unw) as st:
+                 after=bool(inj.get('after')), unwind=unw, events=evs) as st:
         try:
             with contextlib.redirect_stdout(io.StringIO()):
                 returned = fn()
         except BaseException as e:
             escaped = e
+    LAST['events'], LAST['other'], LAST['hook_only'] = evs, st['foreign'], st['hook_only']
     by = 'kill' if inj.get('exc') is None else inj['exc']
     if st['fired'] is not None:
-        torn = bool(inj.get('torn')) and not inj.get('after')
-        intr = {'p': st['fired'], 'torn': torn, 'unwind': unw, 'by': by, 'swallowed': escaped is None}
+        intr = {'p': st['fired_effects'], 'event': st['fired'], 'torn': st['torn_done'], 'unwind': unw, 'by': by,
+                'swallowed': escaped is None}
         err = None
         if escaped is not None and escaped is not st['injected'] and not isinstance(escaped, Crash):
             intr['replaced_by'] = f'{type(escaped).__name__}: {escaped}'     # raised by the clean-up code itself
@@ -281,15 +464,25 @@ def run_interruptible(fn, directory, inj=None):
     if isinstance(escaped, (KeyboardInterrupt, SystemExit)):
         raise escaped                       # not ours: a real Ctrl-C / exit of the check itself
     text = f'{type(escaped).__name__}: {escaped}'
-    for idx, e, kind, name in st['errors']:
-        if e is escaped:                     # an effect of the save itself failed and the exception left fn
-            target = pathlib.Path(directory) / FNAME.get(name, name)
-            intr = {'p': idx, 'torn': kind == 'W' and name != 'sentinel' and target.exists(), 'unwind': tr[idx + 1:],
+    for before, e, effs in st['errors']:
+        if e is escaped:                     # an event of the save itself failed and the exception left fn
+            torn = any(kind == 'W' and name != 'sentinel' and (pathlib.Path(directory) / FNAME.get(name, name)).exists()
+                       for kind, name in effs)
+            intr = {'p': before, 'event': None, 'torn': torn, 'unwind': tr[before + len(effs):],
                     'by': 'femio:' + type(escaped).__name__, 'swallowed': False}
-            return None, text, intr, tr[:idx]
-    # raised by femio between two effects: everything traced counts as performed before it
-    intr = {'p': len(tr), 'torn': False, 'unwind': [], 'by': 'femio:' + type(escaped).__name__, 'swallowed': False}
+            return None, text, intr, tr[:before]
+    # raised by femio between two events: everything traced counts as performed before it
+    intr = {'p': len(tr), 'event': None, 'torn': False, 'unwind': [], 'by': 'femio:' + type(escaped).__name__,
+            'swallowed': False}
     return None, text, intr, tr
+
+
+LAST = {}     # events of the last run_interruptible call (diagnostics / the event list of a traced plan)
+
+
+def n_effects(evs, n_events):
+    """number of model effects among the first n_events events"""
+    return sum(len(e) for e in evs[:n_events])
 
 
 # ------------------------------------------------------------------ objects
@@ -418,8 +611,9 @@ SOURCES = {'ucd': ('mesh.inp', [['tet'], ['hex'], ['tet', 'hex'], ['tri', 'quad'
            'obj': ('mesh.obj', [['tri'], ['quad'], ['tri', 'quad']])}
 
 
-def make_source(r, directory, tag, file_type='ucd'):
-    """a source directory (AVS UCD / FrontISTR msh + cnt / Wavefront OBJ) and the reference parse"""
+def make_source(r, directory, tag, file_type='ucd', heat=False):
+    """a source directory (AVS UCD / FrontISTR msh + cnt / Wavefront OBJ) and the reference parse; heat (FrontISTR only): a
+    HEAT analysis, so that the settings of the parse differ from the defaults"""
     from femio import FEMData, FEMAttribute
     fname, pool = SOURCES[file_type]
     while True:
@@ -431,6 +625,9 @@ def make_source(r, directory, tag, file_type='ucd'):
             if file_type != 'obj':
                 fd.nodal_data['T'] = FEMAttribute('T', ids=fd.nodes.ids, data=np.arange(len(fd.nodes.ids), dtype=float)[:, None] + tag,
                                                   silent=True)
+            if heat:      # settings that differ from what a cache WITHOUT settings file yields (solution type, time steps)
+                fd.settings['solution_type'] = 'HEAT'
+                fd.settings['heat'] = np.array([[0.25 * tag, 8.0 + tag]])
             for f in directory.glob('mesh*'):
                 f.unlink()
             fd.write(file_type, directory / fname)
@@ -485,13 +682,22 @@ def trace_plan(ctx, fd, mo):
     if d.exists():
         shutil.rmtree(d)
     d.mkdir(parents=True)
-    tr = []
+    tr = Plan()
     with contextlib.redirect_stdout(io.StringIO()):
         _FULL['fd'].save(d)
-        with effects(d, trace=tr):
+        with effects(d, trace=tr, events=tr.events):
             fd.save(d, save_mesh_only=bool(mo))
     shutil.rmtree(d, ignore_errors=True)
     return tr
+
+
+class Plan(list):
+    """the model effects of a complete save, in order; .events: per file-system event below the cache directory (the
+    interruption points) the list of its model effects ([]: an event that touches no cache file of the directory)"""
+
+    def __init__(self, *a):
+        super().__init__(*a)
+        self.events = []
 
 
 def enc_plan(tr):
@@ -573,26 +779,42 @@ def random_op(r, step, prev):
     return ('nsave', r.choice(POISONS))
 
 
-def run_history(ctx, hid, ops_fixed=None):
+def run_history(ctx, hid, ops_fixed=None, setup=None):
+    """setup (sweeps): {'source': 'fistr-heat', 'full': every optional group of A and B non-empty}.
+    -> {'fired': whether the interruption of the last injecting operation took place (False: its point lies beyond the last
+    event of that save)}"""
     from femio import FEMData
     r = ctx.rng
+    state0 = r.getstate()      # the objects of the history are a function of this state: kept in the case for the replay
+    rng_state = [state0[0], list(state0[1]), state0[2]]
+    setup = dict(setup or {})
+    out = {'fired': None}
     d = ctx.tmp / f'h{hid}'
     if d.exists():
         shutil.rmtree(d)
     d.mkdir(parents=True)
     u = r.random()
     ft = 'ucd' if u < .55 else 'fistr' if u < .85 else 'obj'
-    ctx.count('source:' + ft)
-    parse = make_source(r, d, 1, ft)
-    A, _ = make_obj(r, 2, has_nodal_extra=r.random() < .8, has_elemental=r.random() < .6, has_constraints=r.random() < .6,
+    heat = ft == 'fistr' and r.random() < .6
+    if setup.get('source') == 'fistr-heat':
+        ft, heat = 'fistr', True
+    ctx.count('source:' + ft + (' (HEAT: settings differ from the defaults)' if heat else ''))
+    parse = make_source(r, d, 1, ft, heat=heat)
+    full = bool(setup.get('full'))
+    A, _ = make_obj(r, 2, has_nodal_extra=r.random() < .8 or full, has_elemental=r.random() < .6 or full,
+                    has_constraints=r.random() < .6 or full,
                     types=r.choice([['tet'], ['hex'], ['tet', 'hex']]), drop_node_entry=r.random() < .3)
-    B, _ = make_obj(r, 3, has_nodal_extra=r.random() < .5, has_elemental=r.random() < .4, has_constraints=r.random() < .4,
+    B, _ = make_obj(r, 3, has_nodal_extra=r.random() < .5 or full, has_elemental=r.random() < .4 or full,
+                    has_constraints=r.random() < .4 or full,
                     types=r.choice([['tet'], ['hex', 'prism']]), drop_node_entry=r.random() < .5)
     objs_fd = {1: parse, 2: A, 3: B}
     objs = {t: (digest(fd), flags(fd)) for t, fd in objs_fd.items()}
     refs = {t: ref_file_digests(fd) for t, fd in objs_fd.items()}
     model_dir = ['a'] * 7
     model_on = True        # after a disagreement the history continues on the real code (oracle only)
+    # what a read may return: the parse of the source, or an object a save of which (mesh-only or not) was at least started
+    attempted = {(1, False)}
+    op_events = []
     plans = {}
     poisoned = {}
 
@@ -641,9 +863,16 @@ def run_history(ctx, hid, ops_fixed=None):
             need_poisoned(op[1])
         t, mo = (1, 0) if is_read else (4, 0) if op[0] == 'nsave' else (op[1], op[2])
         ki = {'crash': 3, 'interrupt': 3, 'rcrash': 1, 'rinterrupt': 1}.get(op[0])
-        if ki is not None and op[ki] < 0:      # interruption point counted from the end of this save (-1: its last effect)
-            op = op[:ki] + (max(0, len(traced(t, mo)) + op[ki]),) + op[ki + 1:]
+        if ki is not None and op[ki] < 0:      # interruption point counted from the end of this save (-1: its last event)
+            op = op[:ki] + (max(0, len(traced(t, mo).events) + op[ki]),) + op[ki + 1:]
+        elif ki is not None and ops_fixed is None and len(traced(t, mo).events) > 12:
+            # random points are drawn from 0..11 (a save of the current code has <= 12 events); a save with more events (a
+            # staging directory, temporary names ...) gets points over ALL of them, the first / last staying over-weighted
+            n_ev = len(traced(t, mo).events)
+            op = op[:ki] + (op[ki] if op[ki] == 0 else r.randrange(n_ev),) + op[ki + 1:]
         hist.append(list(op))
+        if not is_read:
+            attempted.add((t, bool(mo)))
         inj = op_injection(op)
         before = observe_dir(d, refs)
         if is_read:
@@ -654,7 +883,12 @@ def run_history(ctx, hid, ops_fixed=None):
                 objs_fd[t].save(d, save_mesh_only=bool(mo))
         returned, err, intr, done = run_interruptible(fn, d, inj)
         after = observe_dir(d, refs)
-        case = {'history': hist[:], 'flags': {str(t2): list(o[1]) for t2, o in objs.items()}}
+        op_events.append([' + '.join(f'{k2} {f}' for k2, f in e) or '-' for e in LAST.get('events', [])])
+        case = {'history': hist[:], 'flags': {str(t2): list(o[1]) for t2, o in objs.items()}, 'setup': setup,
+                'events_performed_per_operation (- = touches no cache file of the directory)': op_events[:],
+                'rng_state': rng_state}
+        if inj is not None:
+            out['fired'] = intr is not None
         served_from_cache = is_read and before[6] == 's'
         ctx.case((hid, step), sample={'op': list(op), 'dir_before': before, 'dir_after': after,
                                       **({'interrupted': {k2: v for k2, v in intr.items() if k2 != 'unwind'},
@@ -666,24 +900,36 @@ def run_history(ctx, hid, ops_fixed=None):
             where = 'first-read auto-save' if is_read else 'save over a complete cache' if before[6] == 's' else 'save'
             ctx.count(f'interrupted: {where}, ' + ('process death' if intr['by'] == 'kill' else 'exception'))
             ctx.count(f'effects while unwinding: {len(intr["unwind"])}')
+            if inj is not None:
+                at = traced(t, mo).events[inj['k']: inj['k'] + 1]
+                ctx.count('interrupted at: ' + ('an event that touches a cache file' if at and at[0] else
+                                                'an event that touches no cache file (staging / temporary name / clean-up)'))
+        if LAST.get('hook_only'):
+            ctx.count('events seen by the audit hook only (no wrapped call)', LAST['hook_only'])
         elif inj is not None:
             ctx.count('interruption point beyond the last effect' if not served_from_cache else 'read served from cache: nothing to interrupt')
         # ---------------- oracle
         got = None
         if is_read and returned is not None:
-            got = match_returned(digest(returned), objs)
-            if got is None:
+            dg_ret = digest(returned)
+            got = match_returned(dg_ret, objs)
+            if got is None or got not in attempted:
+                # (an object that equals the mesh-only part of X although no mesh-only save of X was ever started is X with
+                # its data / settings lost, not a complete cache)
+                near = [f'object {t2}: ' + ', '.join(g for g in od if od[g] != dg_ret[g]) + ' differ' for t2, (od, _f) in objs.items()
+                        if od['nodes'] == dg_ret['nodes'] and od['elements'] == dg_ret['elements']]
                 ctx.fail('partial-cache-loaded', f'read_directory returned data that is neither the parse of the source nor one '
-                         f'completely saved object (cache files before the read: {dict(zip(FILES, before))})', case,
-                         {'dir': before})
-                return
+                         f'completely saved object (cache files before the read: {dict(zip(FILES, before))}'
+                         + (f'; returned = {"; ".join(near)}' if near else '') + ')', case,
+                         {'dir': before, 'settings_returned': dg_ret['settings']})
+                return out
             ctx.count(f'read-returns:{"source" if got[0] == 1 else "saved-object"}{"(mesh-only)" if got[1] else ""}')
         elif is_read and err is not None:
             ctx.fail('read-raises', f'read_directory raised {err} after history {hist}', case, {'dir': before})
-            return
+            return out
         elif op[0] in ('save', 'crash', 'interrupt') and err is not None:
             ctx.fail('save-raises', f'save() of an ordinary object raised {err} by itself', case, {'dir': before})
-            return
+            return out
         elif op[0] == 'nsave':
             ctx.count(f'save raises by itself ({op[1]}): ' + (err.split(':')[0] if err else 'NOT RAISED'))
         # ---------------- correspondence
@@ -698,11 +944,14 @@ def run_history(ctx, hid, ops_fixed=None):
             # nominal interruption point of an injected interruption (so that the model, not the observation, decides
             # what a point beyond the last effect means); observed point of one raised by femio itself
             if inj is not None:
-                p, torn = inj['k'] + (1 if inj['after'] else 0), inj['torn']
+                # k counts EVENTS; the model counts the effects on the cache files among them
+                p = n_effects(tr.events, inj['k'] + (1 if inj['after'] else 0))
+                torn = int(intr['torn']) if intr else 0       # whether a cache file really was left half-written
                 unw = intr['unwind'] if intr else []
             elif intr is not None:
                 p, torn, unw = intr['p'], int(intr['torn']), intr['unwind']
-            if intr is not None and (done != tr[:len(done)] or any(f not in FILES for _k, f in unw)):
+            if intr is not None and (done != tr[:len(done)] or any(f not in FILES for _k, f in unw)
+                                     or (inj is not None and len(done) != p)):
                 ctx.disagree('the effects performed before the interruption are not a prefix of the traced plan of this save',
                              case, {'performed': done, 'then': unw}, {'plan': tr})
                 model_on = False
@@ -749,6 +998,7 @@ def run_history(ctx, hid, ops_fixed=None):
                 if m_got != got:
                     ctx.disagree('object returned by read', case, got, {'model': ret})
                     model_on = False
+    return out
 
 
 def exactness(ctx, k):
@@ -905,7 +1155,7 @@ def unwind_tie(ctx, fd, f, mo, tr):
     and must be accepted by GoodUnwind (hypothesis of the theorems, evaluated by the driver)"""
     names = list(EXCS)
     d = ctx.tmp / 'plan'
-    for k in range(len(tr)):
+    for k in range(len(tr.events)):
         for after in (0, 1):
             if d.exists():
                 shutil.rmtree(d)
@@ -915,9 +1165,14 @@ def unwind_tie(ctx, fd, f, mo, tr):
             exc = names[(k + 2 * after) % len(names)]       # every effect: one BaseException, one ordinary Exception
             _ret, err, intr, done = run_interruptible(lambda: fd.save(d, save_mesh_only=bool(mo)), d,
                                                       {'k': k, 'torn': 0, 'exc': exc, 'after': after})
-            case = {'flags': f, 'mesh_only': mo, 'interrupted_by': exc, 'at_effect': k, 'after_the_effect': after}
+            case = {'flags': f, 'mesh_only': mo, 'interrupted_by': exc, 'at_event': k, 'after_the_event': after}
             ctx.count('unwind-tie')
-            if intr is None or err is not None or intr['swallowed'] or done != tr[:k + after]:
+            p = n_effects(tr.events, k + after)
+            if intr is None and after and LAST.get('hook_only'):
+                # the last event is one only the audit hook sees: "right after it" has no later event to be raised at
+                ctx.count('unwind-tie: no event left to raise at')
+                continue
+            if intr is None or err is not None or intr['swallowed'] or done != tr[:p]:
                 ctx.disagree('a save left by an exception at effect k performed something else than the first k effects of '
                              'its plan', case, {'performed': done, 'error': err, 'interruption': intr}, {'plan': tr})
                 continue
@@ -926,7 +1181,7 @@ def unwind_tie(ctx, fd, f, mo, tr):
                 if any(f2 not in FILES for _k, f2 in intr['unwind']):
                     ctx.disagree('clean-up touches a femio_* file the model does not know', case, intr['unwind'], None)
                     continue
-                rep = ctx.driver.ask(f'c05.unwind {len(tr)} {k + after} {enc_plan(intr["unwind"])}').split()
+                rep = ctx.driver.ask(f'c05.unwind {len(tr)} {p} {enc_plan(intr["unwind"])}').split()
                 if rep[0] != 'ok':
                     raise RuntimeError('driver: ' + ' '.join(rep))
                 if rep[1] != '1':
@@ -952,13 +1207,14 @@ def exhaustive_second_save(ctx):
     """every interruption (point x process death / exception x torn / after) x mesh-only of a second save over a
     complete first one, then a read; the same for the automatic save of a first read, then two reads"""
     n = 0
+    n_points = max(12, len(trace_plan(ctx, _FULL['fd'], 0).events))
     for first_mo in (0, 1):
         for mo in (0, 1):
-            for kind, k, torn, e, after in interruptions(12, ['KeyboardInterrupt', 'OSError']):
+            for kind, k, torn, e, after in interruptions(n_points, ['KeyboardInterrupt', 'OSError']):
                 op = ('crash', 3, mo, k, torn) if kind == 'kill' else ('interrupt', 3, mo, k, torn, e, after)
                 run_history(ctx, f'e{first_mo}{mo}{k}{torn}{e}{after}', ops_fixed=[('read',), ('save', 2, first_mo), op, ('read',)])
                 n += 1
-    for kind, k, torn, e, after in interruptions(12, ['KeyboardInterrupt', 'SystemExit', 'OSError', 'MemoryError']):
+    for kind, k, torn, e, after in interruptions(n_points, ['KeyboardInterrupt', 'SystemExit', 'OSError', 'MemoryError']):
         op = ('rcrash', k, torn) if kind == 'kill' else ('rinterrupt', k, torn, e, after)
         run_history(ctx, f'r{k}{torn}{e}{after}', ops_fixed=[op, ('read',), ('read',)])
         n += 1
@@ -967,6 +1223,25 @@ def exhaustive_second_save(ctx):
             run_history(ctx, f'n{how}{len(first)}', ops_fixed=first + [('nsave', how), ('read',), ('read',)])
             n += 1
     ctx.extra['exhaustive_second_save_histories'] = n
+
+
+def sweep(ctx):
+    """EVERY interruption point of one save, whatever the save is made of: a process death before event k = 0, 1, 2, ...
+    (until the point lies beyond the last event; W events alternately torn) of (a) a second save over the complete cache of
+    another object, (b) the automatic save of a first read, (c) a mesh-only second save; then two reads.  Objects with every
+    optional group non-empty and with settings that differ from what a cache without settings file yields (a FrontISTR HEAT
+    source), so that EVERY missing file is observable."""
+    setup = {'source': 'fistr-heat', 'full': True}
+    for name, mk in (('second-save', lambda k: [('save', 2, 0), ('crash', 3, 0, k, k % 2), ('read',), ('read',)]),
+                     ('first-read', lambda k: [('rcrash', k, k % 2), ('read',), ('read',)]),
+                     ('mesh-only', lambda k: [('save', 2, 0), ('crash', 3, 1, k, k % 2), ('read',)])):
+        for k in range(64):
+            res = run_history(ctx, f'w{name}{k}', ops_fixed=mk(k), setup=setup)
+            shutil.rmtree(ctx.tmp / f'hw{name}{k}', ignore_errors=True)
+            ctx.count('sweep:' + name)
+            if not res or not res['fired']:
+                break
+        ctx.extra.setdefault('sweep_interruption_points', {})[name] = k
 
 
 QUICK_FIXED = [
@@ -1049,6 +1324,7 @@ def run_streams(ctx):
     for i, ops in enumerate(QUICK_FIXED):
         run_history(ctx, f'q{i}', ops_fixed=ops)
         shutil.rmtree(ctx.tmp / f'hq{i}', ignore_errors=True)
+    sweep(ctx)
     for k in range(ctx.n(60, 500)):
         exactness(ctx, k)
         shutil.rmtree(ctx.tmp / f'x{k}', ignore_errors=True)
@@ -1068,5 +1344,8 @@ def replay(ctx, obj):
     if 'history' not in case:
         return {'fails': False, 'note': 'exactness case: re-run ./check C05 with VERIF_SEED=%s' % obj.get('seed')}
     before = len(ctx.failures)
-    run_history(ctx, 'replay', ops_fixed=[tuple(o) for o in case['history']])
+    if 'rng_state' in case:      # the objects of the history are drawn from this generator state
+        v, internal, gauss = case['rng_state']
+        ctx.rng.setstate((v, tuple(internal), gauss))
+    run_history(ctx, 'replay', ops_fixed=[tuple(o) for o in case['history']], setup=case.get('setup'))
     return {'failures': ctx.failures[before:], 'fails': len(ctx.failures) > before}
